@@ -111,6 +111,15 @@ func (s *Server) getPayeeTemplates(uri protocol.DocumentURI, content string) map
 	var result *analyzer.AnalysisResult
 	if resolved := s.getWorkspaceResolved(uri); resolved != nil {
 		result = s.analyzer.AnalyzeResolved(resolved)
+		// a document that is not part of the workspace tree still offers the
+		// templates of its own transactions
+		path := uriToPath(uri)
+		if _, included := resolved.Files[path]; !included && resolved.PrimaryPath != path {
+			journal, _ := parser.Parse(content)
+			for payee, postings := range s.analyzer.Analyze(journal).PayeeTemplates {
+				result.PayeeTemplates[payee] = postings
+			}
+		}
 	} else {
 		journal, _ := parser.Parse(content)
 		result = s.analyzer.Analyze(journal)
